@@ -1,24 +1,24 @@
 import Generated.Facts
 /-! Tie (C20): every `range` over a Go map in the modelled packages either feeds a sort before its
-result is used, or sits in a function whose result the model proves independent of the order
+result is used, or ranges over one of the tables whose iteration order the model proves unobservable
 (listed here with the reason). -/
 namespace Tie
 
-/-- functions whose map loops are order-insensitive by construction -/
+/-- map-typed fields whose iteration order cannot be observed, per file (the reason is a theorem of
+`Props/C20.lean` or a sort downstream); a `range` over anything else must be followed by a sort -/
 def orderInsensitive : List (String × String) := [
-  ("api.go", "getAliasNameFromPartialEntry"),     -- result sorted by the caller before use
-  ("api.go", "parseCLIArgs"),                     -- command lookup: exact key, at most one hit; completion lists sorted
-  ("user.go", "copyOptionsFromParent"),           -- writes distinct keys
-  ("user_help.go", "helpOutput"),                 -- collected options are sorted by name in help.Synopsis/OptionList
-  ("user_help.go", "HelpCommand"),                -- suggestions are sorted when offered
-  ("user_help.go", "runHelp"),                    -- unique name match
-  ("user_help.go", "runOnParentAndChildrenCommands"),
-  ("dag/dag.go", "getNextVertex"),                -- scheduling choice: any ready vertex (C13-C16 quantify over it)
-  ("dag/dag.go", "DepthFirstSort")                -- any topological order is acceptable
+  ("api.go", "ChildOptions"),          -- abbreviation candidates: sorted by the caller / resolve_order_independent;
+                                       -- completion candidates: sorted (completion_order_independent)
+  ("api.go", "ChildCommands"),         -- command lookup by exact key; completion candidates sorted
+  ("user.go", "ChildOptions"),         -- copyOptionsFromParent writes distinct keys; checkRequired sorts
+  ("user.go", "ChildCommands"),        -- tree walks: every child is visited, order irrelevant
+  ("user_help.go", "ChildOptions"),    -- help_text_order_independent
+  ("user_help.go", "ChildCommands"),   -- help_text_order_independent; topic lookup by unique name
+  ("dag/dag.go", "Vertices")           -- scheduling choice / any topological order (C13-C16 quantify over it)
 ]
 
 def mapOrderOk : Bool :=
-  Generated.mapRanges.all fun r => r.2.2.2.1 || orderInsensitive.contains (r.1, r.2.1)
+  Generated.mapRanges.all fun r => r.2.2.2.1 || orderInsensitive.contains (r.1, r.2.2.1)
 
 example : mapOrderOk = true := by decide
 
